@@ -193,6 +193,9 @@ class PendingFigure(PendingTask):
                     width_num = float(NON_DIGITS.sub("", user_width))
                     options["height"] = str(dimensions[1] * width_num / dimensions[0])
         except OSError as err:
+            # Remember that we looked for this image, so that a cached parse is
+            # invalidated once the image shows up.
+            self.dependencies[self.asset.fileid] = None
             diagnostics.append(
                 CannotOpenFile(self.asset.path, err.strerror, self.node.start[0])
             )
@@ -1245,6 +1248,8 @@ class JSONVisitor:
                 FileId(argument_text), self.docpath, self.project_config.source_path
             )
 
+            self.dependencies[openapi_fileid] = None
+
             try:
                 spec_bytes = filepath.read_bytes()
                 self.dependencies[openapi_fileid] = hashlib.blake2b(
@@ -1582,6 +1587,16 @@ class JSONVisitor:
                 CannotOpenFile(Path(image_argument), err.strerror, line)
             )
 
+    def is_file_dependency(self, path: Path) -> bool:
+        """Check whether a file exists, and record the answer as a dependency of this page so that
+        a cached parse is invalidated when that file is created, changed, or removed."""
+        fileid = self.project_config.get_fileid(path)
+        try:
+            self.dependencies[fileid] = hashlib.blake2b(path.read_bytes()).hexdigest()
+        except OSError:
+            self.dependencies[fileid] = None
+        return path.is_file()
+
     def validate_relative_url(self, url_argument: str, line: int) -> None:
         """Validate relative URL points to page within current docs site.
         URLs can be of the form /foo, foo, /foo/"""
@@ -1589,7 +1604,7 @@ class JSONVisitor:
             url_argument, self.docpath, self.project_config.source_path
         )
 
-        if not target_path.is_file():
+        if not self.is_file_dependency(target_path):
             err_message = (
                 f"{os.strerror(errno.ENOENT)} for relative path {url_argument}"
             )
@@ -1608,7 +1623,7 @@ class JSONVisitor:
             target, self.docpath, self.project_config.source_path
         )
 
-        if not resolved_target_path.is_file():
+        if not self.is_file_dependency(resolved_target_path):
             self.diagnostics.append(
                 CannotOpenFile(
                     resolved_target_path, os.strerror(errno.ENOENT), node.get_line()
@@ -1690,6 +1705,18 @@ class JSONVisitor:
         return static_asset
 
     def add_diagnostics(self, diagnostics: Iterable[Diagnostic]) -> None:
+        """Add the diagnostics generated while reading this page's source text."""
+        diagnostics = list(diagnostics)
+        if diagnostics:
+            # These depend on the raw source file, which the parse cache key (the hash of the
+            # decoded text after constant substitution) does not determine: depend on the
+            # raw file as well.
+            fileid = FileId(self.docpath)
+            try:
+                raw = self.project_config.get_full_path(fileid).read_bytes()
+                self.dependencies[fileid] = hashlib.blake2b(raw).hexdigest()
+            except OSError:
+                self.dependencies[fileid] = None
         self.diagnostics.extend(diagnostics)
 
     def __make_child_visitor(self) -> "JSONVisitor":
@@ -1859,8 +1886,22 @@ class EmbeddedRstParser:
         self.diagnostics.extend(visitor.diagnostics)
         self.page.static_assets.update(visitor.static_assets)
         self.page.pending_tasks.extend(visitor.pending)
+        self.adopt_dependencies(visitor)
 
         return children
+
+    def adopt_dependencies(self, visitor: JSONVisitor) -> None:
+        """Files looked at while parsing embedded rst are dependencies of the page being generated."""
+        dependencies = visitor.dependencies.dependencies
+        if dependencies is None:
+            self.page.dependencies.mark_uncacheable()
+        else:
+            for fileid, file_hash in dependencies.items():
+                self.page.dependencies[fileid] = file_hash
+
+        for task in visitor.pending:
+            if isinstance(task, PendingFigure):
+                task.dependencies = self.page.dependencies
 
     def parse_inline(self, rst: str, lineno: int) -> MutableSequence[n.InlineNode]:
         # Crudely make docutils line numbers match
@@ -1873,6 +1914,7 @@ class EmbeddedRstParser:
         self.diagnostics.extend(visitor.diagnostics)
         self.page.static_assets.update(visitor.static_assets)
         self.page.pending_tasks.extend(visitor.pending)
+        self.adopt_dependencies(visitor)
 
         return children
 
